@@ -43,6 +43,14 @@ PROPS = {
         "open_statements": ["not_wf", "or_wf", "xor_wf", "pack_wf", "flat_iter_spec", "to_ranges_spec", "deep_size_eq_length", "cover_rec_structure (coverage outputs)"],
         "assumptions": COMMON_ASSUME + ["BMOCBuilderUnsafe::push trusts its caller: WF of user-built BMOCs is a hypothesis"],
     },
+    "C10": {
+        "claim": "Theorems: the integer correction loops of polar_cap_ring_index (the repair of F2) return the exact ring index from any estimate within `fuel` of it, for every cell number (existence/uniqueness of the index proved), so NESTED<->RING no longer depends on the accuracy of f64::sqrt; the off-by-one of the float estimate at depth 26 is a kernel-checked fact on Lean's IEEE-754 model. to_ring/from_ring are modelled over Nat/Int for every depth and compared with the code: exhaustive depth<=6 (quick)/<=9 (thorough) in both directions, ring-boundary classes (first/last/quarter cells of sampled polar and equatorial rings, both transition rings, rings whose (2r+1)^2 exceeds 2^53) and base-cell border cells at all depths to 29; oracles check range, both round trips, RING order of centres and agreement with ring::center_of_projected_cell.",
+        "note": "PARTIAL proof: ring-index theorem proved for all inputs; the bijection and order theorems for all depths are open statements (small-depth kernel evaluation is reported as a test). Trusted: Lean kernel, hand-written model Model/Layer.lean, Lean's Float model for the sqrt estimate.",
+        "level": "proof",
+        "trusted_base": ["Model/Layer.lean: hand-written mirror of to_ring/from_ring/decode_hash/build_hash", "Lean core IEEE-754 model of f64 sqrt / u64->f64 / f64->u64 conversions (kernel-reducible)"],
+        "open_statements": ["from_ring_to_ring (all depths)", "to_ring_from_ring (all depths)", "ring_order", "ring_center_agrees"],
+        "assumptions": COMMON_ASSUME,
+    },
     "C15": {
         "claim": 'Theorems: each pack pass never lengthens the list, pack ends on a fixed point of the pass (a further pass merges nothing), to_lower_depth rejects new_depth>=depth_max. The fixed-depth builder is modelled as a state machine with explicit drain points and compared with the code for all push-sequence families x 9 capacities x 9 depths; pack/to_lower_depth on exhaustive universes and random trees; oracles check pushed-set equality, map preservation, no four full siblings, the lower-depth rule.',
         "note": 'PARTIAL proof: structural pack theorems proved; pack_sem/fixed_builder_sem/to_lower_depth_sem open. Trusted: Lean kernel, hand-written model, Vec capacity assumption.',
